@@ -67,8 +67,11 @@ func (e *Engine) doCall(st *State, fr *Frame, res ssa.Value, c *ssa.CallCommon, 
 			}
 			// every implementer declared pure: one deterministic function symbol of receiver and
 			// arguments instead of one path per dynamic type
-			allPure := true
+			allPure := os.Getenv("GOVC_NOPUREINVOKE") == ""
 			for _, im := range impls {
+				if !allPure {
+					break
+				}
 				sel := e.W.Prog.MethodSets.MethodSet(im).Lookup(c.Method.Pkg(), c.Method.Name())
 				var f *ssa.Function
 				if sel != nil {
@@ -79,7 +82,7 @@ func (e *Engine) doCall(st *State, fr *Frame, res ssa.Value, c *ssa.CallCommon, 
 					break
 				}
 			}
-			if !allPure && e.inModuleIface(c.Value.Type()) {
+			if !allPure && e.inModuleIface(c.Value.Type()) && os.Getenv("GOVC_NOWFINVOKE") == "" {
 				// no implementer writes memory (type-based write sets all empty): also a deterministic reader
 				m := map[string]bool{}
 				e.callMods(c, m, map[*ssa.Function]bool{})
@@ -103,7 +106,7 @@ func (e *Engine) doCall(st *State, fr *Frame, res ssa.Value, c *ssa.CallCommon, 
 					}
 					f := e.W.Prog.MethodValue(sel)
 					fc := e.W.ByFunc[f]
-					if f == nil || fc == nil || !fc.Pure || len(fc.Ensures) == 0 || fc.Opts["opaque"] != "" {
+					if f == nil || fc == nil || !fc.Pure {
 						continue
 					}
 					guard := Eq(tag, IntC(typeID(im)))
@@ -125,6 +128,9 @@ func (e *Engine) doCall(st *State, fr *Frame, res ssa.Value, c *ssa.CallCommon, 
 						continue
 					}
 					e.fact(st, Implies(guard, valEq(a, b)))
+					if len(fc.Ensures) == 0 || fc.Opts["opaque"] != "" {
+						continue
+					}
 					pre := sub.heap.clone()
 					savedMode := e.Mode
 					e.Mode = ModeSpec
@@ -254,6 +260,12 @@ func (e *Engine) callFunction(st *State, fr *Frame, res ssa.Value, callee *ssa.F
 				fr.env[res] = e.evalOld(st, fr, at)
 			}
 			return false
+		case callee.Origin() != nil && (callee.Origin().Name() == "lockacq" || callee.Origin().Name() == "lockwacq" || callee.Origin().Name() == "lockheld"):
+			name := map[string]string{"lockacq": "sync|$acq", "lockwacq": "sync|$wacq", "lockheld": "sync|$held"}[callee.Origin().Name()]
+			if res != nil {
+				fr.env[res] = Val{st.norm(Select(st.heap.get(name, ArrSort(SInt)), args[0][0]))}
+			}
+			return false
 		case callee.Origin() != nil && callee.Origin().Name() == "allold":
 			// all objects of the type that existed before the function under verification was
 			// entered (references >= 1; objects allocated by the execution have negative ids)
@@ -263,7 +275,7 @@ func (e *Engine) callFunction(st *State, fr *Frame, res ssa.Value, callee *ssa.F
 			if cl == nil {
 				engineErr("allold: body is not a closure literal")
 			}
-			bv := BVar("p", SInt)
+			bv := BVarCanon("p", cl.fn.String(), SInt)
 			body := e.evalSpecFn(st, cl.fn, append([]Val{{bv}}, cl.bindings...), []*Term{Le(IntC(1), bv)})
 			if res != nil {
 				fr.env[res] = Val{Forall([]*Term{bv}, Implies(Le(IntC(1), bv), body))}
@@ -279,9 +291,13 @@ func (e *Engine) callFunction(st *State, fr *Frame, res ssa.Value, callee *ssa.F
 			bv := BVar("p", SInt)
 			// all references of the type: every non-nil value (pre-existing objects are positive,
 			// objects allocated by this execution negative; reads under quantifiers carry no sign fact)
-			body := e.evalSpecFn(st, cl.fn, append([]Val{{bv}}, cl.bindings...), []*Term{Ne(bv, IntC(0))})
+			dom := Ne(bv, IntC(0))
+			if os.Getenv("GOVC_ALLREFSPOS") != "" {
+				dom = Le(IntC(1), bv)
+			}
+			body := e.evalSpecFn(st, cl.fn, append([]Val{{bv}}, cl.bindings...), []*Term{dom})
 			if res != nil {
-				fr.env[res] = Val{Forall([]*Term{bv}, Implies(Ne(bv, IntC(0)), body))}
+				fr.env[res] = Val{Forall([]*Term{bv}, Implies(dom, body))}
 			}
 			return false
 		case name == "floatfinite" && strings.HasSuffix(e.W.Fset.Position(callee.Pos()).Filename, "zz_verif_gen.go"):
@@ -311,10 +327,12 @@ func (e *Engine) callFunction(st *State, fr *Frame, res ssa.Value, callee *ssa.F
 			if cl == nil {
 				engineErr("allstrings: body is not a closure literal")
 			}
-			bv := BVar("s", SInt)
-			body := e.evalSpecFn(st, cl.fn, append([]Val{{bv}}, cl.bindings...), []*Term{Le(IntC(0), bv)})
+			// every string value (codes read under a quantifier carry no sign fact, so the
+			// quantifier ranges over all codes)
+			bv := BVarCanon("s", cl.fn.String(), SInt)
+			body := e.evalSpecFn(st, cl.fn, append([]Val{{bv}}, cl.bindings...), nil)
 			if res != nil {
-				fr.env[res] = Val{Forall([]*Term{bv}, Implies(Le(IntC(0), bv), body))}
+				fr.env[res] = Val{Forall([]*Term{bv}, body)}
 			}
 			return false
 		case (name == "pow2" || name == "bigval") && strings.HasSuffix(e.W.Fset.Position(callee.Pos()).Filename, "zz_verif_gen.go"):
@@ -830,6 +848,11 @@ func (e *Engine) reeval(st *State, fr *Frame, v ssa.Value, depth int) Val {
 				return Val{e.mapLen(st, t, a[0])}
 			}
 		}
+		if callee, ok := x.Call.Value.(*ssa.Function); ok && callee.Origin() != nil && (callee.Origin().Name() == "lockacq" || callee.Origin().Name() == "lockwacq" || callee.Origin().Name() == "lockheld") {
+			name := map[string]string{"lockacq": "sync|$acq", "lockwacq": "sync|$wacq", "lockheld": "sync|$held"}[callee.Origin().Name()]
+			a := e.reeval(st, fr, x.Call.Args[0], depth+1)
+			return Val{st.norm(Select(st.heap.get(name, ArrSort(SInt)), a[0]))}
+		}
 		if callee, ok := x.Call.Value.(*ssa.Function); ok && callee.Name() == "bigval" && strings.HasSuffix(e.W.Fset.Position(callee.Pos()).Filename, "zz_verif_gen.go") {
 			a := e.reeval(st, fr, x.Call.Args[0], depth+1)
 			return Val{bigGet(st, a[0])}
@@ -936,7 +959,7 @@ func (e *Engine) quantifier(st *State, fr *Frame, kind string, args []Val) *Term
 	if len(cl.fn.Params) > 0 && cl.fn.Params[0].Name() != "" {
 		bvName = cl.fn.Params[0].Name()
 	}
-	bv := BVar(bvName, SInt)
+	bv := BVarCanon(bvName, cl.fn.String(), SInt)
 	rng := And(Le(lo, bv), Lt(bv, hi))
 	// small concrete ranges are expanded
 	if l, ok := lo.ConstInt(); ok {
